@@ -224,6 +224,32 @@ def scenario(ctx, rng, j):
           [t.make_single_sig_witness(D, fields, f_hex)
            + t.make_single_sig_witness(A, fields, f_hex)
            + t.make_single_sig_witness(C, fields, f_hex), lm3], fields, True)
+    # a key list that names a key twice ("quorum_size <= number of unique
+    # pubkeys" is all the builder asks for): the two distinct holders open it,
+    # one holder alone does not
+    if j % 3 == 0:
+        import nacl.signing as ns
+        rep = rng.choice(([pA, pA, pC], [pA, pC, pA], [pC, pA, ns.VerifyKey(pA)],
+                          [pA, pC, pC, pA]))
+        try:
+            lr = t.make_multisig_lock(rep, 2, a_hex)
+        except BaseException as e:
+            ctx.evaluated()
+            ctx.violation('builder-raised:make_multisig_lock',
+                          'make_multisig_lock refuses a key list naming a '
+                          'key twice (2 of 2 unique keys)', {'name':
+                          'multisig:repeated-key', 'fields': fields}, 'a lock',
+                          repr(e)[:120])
+            lr = None
+        if lr is not None:
+            judge('multisig:repeated-key:ok',
+                  [t.make_single_sig_witness(A, fields, f_hex)
+                   + t.make_single_sig_witness(C, fields, f_hex), lr],
+                  fields, True)
+            judge('multisig:repeated-key:one-holder',
+                  [t.make_single_sig_witness(A, fields, f_hex)
+                   + t.make_single_sig_witness(A, fields, f_hex), lr],
+                  fields, False)
     # --- graftroot key path / graftap key path
     lg = t.make_graftroot_lock(pA, a_hex)
     sig_family('graftroot-key', lg,
